@@ -108,7 +108,7 @@ def check(case):
     if np.isfinite(dts) and dts > 0 and case["nsteps"] >= 2:
         t0 = P.field.time
         tsave = [t0 + x * dts for x in (1.06, 1.5, 2.0 - 1e-9, 2.1) if x < case["nsteps"]]
-        snaps = cases.build_integrator(case["integ"], P.mesh, P.disc).solve(P.field, case["cfl"], tsave) if tsave else []
+        snaps = cases.build_integrator(case["integ"], P.mesh, P.disc).solve(P.field, case["cfl"], tsave, stop={"maxit": 50}) if tsave else []
         for sn in snaps:
             v = sn.data[0]
             if not np.all(np.isfinite(v)):
